@@ -121,10 +121,15 @@ def loss_case(draw, kinds=KINDS, weights=True, target_param="subset-ordered", ta
     k_obs = draw(st.integers(1, len(names)))
     obs = list(draw(st.permutations(names)))[:k_obs]
     obs_form = draw(st.sampled_from(["str", "list"])) if k_obs == 1 else "list"
+    if k_obs >= 2 and len(su["grid_rel"]) > k_obs and draw(st.integers(0, 5)) == 0:
+        # as many observation times as observed states: a square data matrix, where rows and columns are easily confused
+        su = dict(su, grid_rel=list(su["grid_rel"])[:k_obs])
     n, p = len(su["grid_rel"]), k_obs
 
     def spread_like(lo, hi):
         form = draw(st.sampled_from(["scalar", "scalar", "per-state", "matrix"]))
+        if p >= 2 and n == p and draw(st.booleans()):
+            form = "matrix"           # a full matrix on a square data set: entry [i, j] belongs to time i and state j
         if form == "scalar" or (p == 1 and form == "per-state"):
             return draw(S.fl(lo, hi, 3))
         if form == "per-state":
